@@ -2140,6 +2140,8 @@ def run(ctx):
     for _ in range(reps if not ctx.thorough else 2):
         for comp in ["dt_ic", "dt_src", "dt_op", "dt_par", "ic_raw_param", "all"]:
             for dt_ in DTYPES:
+                if dt_ == "list" and comp in ("dt_src", "dt_op"):
+                    continue        # dt*rhs / dt*diff_op is numpy arithmetic: Python lists are not an accepted declaration there (TypeError)
                 for method, sk in [("forward_euler", "default"), ("backward_euler", "default"), ("backward_euler", "real_tuple"), ("backward_euler", "fake")]:
                     binary = dt_ == "bool"
                     n = rng.randint(3, 5)
@@ -2150,7 +2152,7 @@ def run(ctx):
                             af["c0"], af["Cp"] = [0] * n, [[1 if i == k else 0 for k in range(n)] for i in range(n)]
                             af["Bp"] = [[0] * n for _ in range(n)]
                         style = {"ic_raw_param": True, "dt_par": dt_} if comp == "ic_raw_param" else \
-                            {"dt_ic": dt_, "dt_src": dt_, "dt_op": dt_, "dt_par": dt_} if comp == "all" else {comp: dt_}
+                            ({"dt_ic": dt_, "dt_par": dt_} if dt_ == "list" else {"dt_ic": dt_, "dt_src": dt_, "dt_op": dt_, "dt_par": dt_}) if comp == "all" else {comp: dt_}
                         cfg = {"af": af, "style": style, "times": gen_times(rng, rng.choice(["uniform", "nonuniform"]), rng.randint(2, 5)), "method": method,
                                "solver": sk, "tag": 6, "gsol": None, "gobs": None, "tobs": "final", "omap": ["none"]}
                         p = [rng.choice([0, 1]) for _ in range(npar)] if binary else [rng.randint(-3, 3) for _ in range(npar)]
